@@ -142,6 +142,10 @@ def to_class(field, exp, got, sp):
             ek, _, ev = (exp or "").partition(":")
             if ek == "str" and v in ("'%s'" % ev, '"%s"' % ev):
                 return "str:quoted"
+            if ek == "str" and len(ev) >= 2 and ev[0] == ev[-1] and ev[0] in "'\"" and v == ev[1:-1]:
+                return "str:unwrapped"
+            if ek == "str" and len(ev) >= 2 and ev[0] in "'\"" and ev[-1] in "'\"" and ev[0] != ev[-1] and v == ev[1:-1]:
+                return "str:mixed-quotes-cut"
             if ek == "str" and v == "```%s```" % ev:
                 return "str:code-quoted"
             if ek == "str" and v == "```(%s)```" % ev.strip("`"):
@@ -495,6 +499,7 @@ def evaluate(chk, rec, sig_counts, witness_of=None):
         sig = {"format": f, "style": c["style"], "style_group": "rest" if c["style"] == "rest" else "google/numpydoc", "edd": c["edd"],
                "ta": c.get("type_annotations"), "kw": c.get("kw_only"), "in_domain": in_dom, "field": "raises", "stage": stage, "exc": exc,
                "keywords": interface_keywords(rec["irj"]),
+               "has_quote_default": any((p.get("default") or {}).get("t") == "str" and G.quote_shape(p["default"]["v"]) != "none" for _, p in rec["irj"]["params"]),
                "quotes": "+".join(sorted({G.quote_shape(p["default"]["v"]) for _, p in rec["irj"]["params"] if (p.get("default") or {}).get("t") == "str"} - {"none"})),
                "layer": "docstring" if doc_caused else "format", "return_default_kind": default_kind(rp.get("default")),
                "return_typ_kind": typ_kind(rp.get("typ")) if rec["irj"].get("returns") else "no-return",
@@ -650,6 +655,15 @@ WITNESSES = {
                                                                                     ("m", {"doc": "a value", "typ": "int", "default": _v("int", "7")})]), doc="")),
     "C02-doc-blank-line-in-wrapped-announcement-default": ("function", dict(FN, edd=True), dict(_ir([("n", {"doc": _WRAP_BASE[:77], "typ": "int", "default": _v("int", "5")}),
                                                                                                     ("m", {"doc": "a value", "typ": "int", "default": _v("int", "7")})]), doc="")),
+    "C02-same-quoted-str-default-unwrapped": ("class", REST, _ir([("s", {"doc": "a value", "typ": "str", "default": _v("str", "'x'")})])),
+    "C02-doc-quote-default-raises": ("class", {"style": "google", "edd": True}, _ir([("s", {"doc": "a value", "typ": "str", "default": _v("str", "a\"b")})])),
+    "C02-doc-escaped-str-default": ("function", dict(FN, edd=True), _ir([("s", {"doc": "a value", "typ": "str", "default": _v("str", "a\\'b")})])),
+    "C02-doc-rest-marker-in-prose-param": ("class", REST, _ir([("n", {"doc": "The :param of the caller, kept", "typ": "int"})])),
+    "C02-doc-rest-marker-in-prose-return": ("class", REST, _ir([("n", {"doc": "Same as :return: of the caller", "typ": "int"})])),
+    "C02-doc-numpydoc-returns-colon-return": ("class", {"style": "numpydoc", "edd": False}, dict(_ir([("n", {"doc": "a value", "typ": "int"})]), doc="Like Returns: of the caller")),
+    "C02-doc-numpydoc-returns-colon-raises": ("class", {"style": "numpydoc", "edd": False},
+                                              dict(_ir([("x1", {"doc": "learning rate used", "typ": "float"})], {"doc": "weight decay factor", "typ": "Optional[str]", "default": _v("str", "(a, b)")}),
+                                                   doc="Like Returns: of the caller\n\nLonger description here.")),
     "C02-doc-google-numpydoc-argparse-return": ("argparse", {"style": "google", "edd": False}, _ir([], {"doc": "the result", "typ": "int", "default": _v("str", "K")})),
 }
 
@@ -675,6 +689,15 @@ CORNERS = [
     dict(_ir([("s", {"doc": "The ratio: kept; see (alpha) - beta", "typ": "str", "default": _v("str", "")}),
               ("t", {"doc": "The 'alpha' -> \"beta\" map, kept = yes,", "typ": "Optional[int]", "default": _v("int", "0")})],
              {"doc": "Weights for alpha, beta, gamma, in that order,", "typ": "Optional[str]", "default": _v("str", "K")}), doc=""),
+    # a string default that begins with one kind of quote and ends with the other (nothing may be cut off it)
+    dict(_ir([("msg", {"doc": "the message shown", "typ": "str", "default": _v("str", "'{name}' is not \"{other}\"")}),
+              ("alt", {"doc": "the other message", "typ": "Optional[str]", "default": _v("str", "\"x'")})]), doc="Summary line."),
+    # a Google section keyword mentioned as prose (interface description and a parameter's); the same text without the colon is the control
+    dict(_ir([("n", {"doc": "Kept as is, e.g. Raises: nothing", "typ": "int"}), ("m", {"doc": "a count", "typ": "int", "default": _v("int", "5")})],
+             {"doc": "the result", "typ": "List[int]"}), doc="Does the thing, e.g. Raises: nothing"),
+    dict(_ir([("n", {"doc": "Same as Args: of the caller", "typ": "int"})], {"doc": "Like Returns: of the caller", "typ": "List[int]"}), doc="Summary line."),
+    dict(_ir([("n", {"doc": "Kept as is, e.g. Raises nothing", "typ": "int"}), ("m", {"doc": "a count", "typ": "int", "default": _v("int", "5")})],
+             {"doc": "the result", "typ": "List[int]"}), doc="Does the thing, e.g. Raises nothing"),
     dict(_ir([("flag", {"doc": "Kept between runs,", "typ": "bool", "default": _v("bool", "False")})],
              {"doc": "One of: alpha, beta; or (gamma)", "typ": "List[int]", "default": _v("str", "K")}, typ="self"), doc="Summary line."),
 ]
@@ -695,7 +718,8 @@ THEOREMS = ["C02.C02_class", "C02.C02_pydantic", "C02.C02_function", "C02.C02_ar
             "C02.function_return_typ_reinferred", "C02.C02_full_fails_function_return_typ_reinferred",
             "C02.function_return_typ_dropped", "C02.C02_full_fails_function_return_typ_dropped",
             "C02.function_return_default_code_quoted", "C02.C02_full_fails_function_return_default_code_quoted",
-            "C02.argparse_return_code_quoted", "C02.C02_full_fails_argparse_return_code_quoted"]
+            "C02.argparse_return_code_quoted", "C02.C02_full_fails_argparse_return_code_quoted",
+            "C02.class_same_quoted_default_unwrapped", "C02.C02_full_fails_same_quoted_default_unwrapped", "C02.class_mixed_quote_default_kept"]
 
 
 def run(chk: core.Check) -> int:
@@ -826,13 +850,38 @@ def run(chk: core.Check) -> int:
                 d = rp.get("doc") or ""
                 pret[("argparse return entry kept | %s | commas in its description: %s | %s" %
                       (rec["cfg"]["style"], min(d.count(","), 3), "theorem applies" if ok_thm else "outside D02 / hypotheses"))] += 1
-    chk.coverage["separator_stream"] = {"interfaces": len(pirs), "fixed corners": len(CORNERS), "cases": len(pcases),
+    chk.coverage["separator_stream"] = {"interfaces": len(pirs), "fixed corners (separators, mixed-quote default, Google keyword in prose + control)": len(CORNERS), "cases": len(pcases),
                                         "cases inside D02 with the docstring-layer hypotheses true": n_punct_thm,
                                         "descriptions": G.PUNCT_DOCS, "argparse_return_descriptions": dict(sorted(pret.items()))}
+    # ---- (7) quotes: string defaults with quote characters in every position (mixed kinds at the two ends, one end only, inside,
+    #          same-kind wrapped, a lone quote, escaped); (8) keywords: descriptions (interface / parameter / return entry) that mention, as
+    #          prose, the section keywords of the docstring styles; both through all four formats and every configuration
+    qirs = G.gen_quote_irs(rng, 42 if chk.quick else 400)
+    kirs = G.gen_keyword_irs(rng, 54 if chk.quick else 405)
+    extra = collections.Counter()
+    n_extra_thm = 0
+    for label, irs_ in (("quotes", qirs), ("keywords", kirs)):
+        xcases = [(f, c, ir) for ir in irs_ for f in R.FORMATS for c in CFGS[f]]
+        for i in range(0, len(xcases), B):
+            for rec in run_cases(chk, xcases[i:i + B], label):
+                claimed = compare(chk, rec, stats, label)
+                evaluate(chk, rec, sig_counts)
+                ok_thm = theorem_instance(chk, rec, claimed)
+                n_extra_thm += ok_thm
+                chk.count((label, rec["fmt"], json.dumps(rec["cfg"], sort_keys=True), json.dumps(rec["irj"], sort_keys=True)), ok_thm)
+                if label == "quotes":
+                    for _, p in rec["irj"]["params"]:
+                        if (p.get("default") or {}).get("t") == "str":
+                            extra[("quotes", rec["fmt"], G.quote_shape(p["default"]["v"]), "theorem applies" if ok_thm else "outside D02 / hypotheses")] += 1
+                else:
+                    extra[("keywords", rec["fmt"], rec["cfg"]["style"], interface_keywords(rec["irj"]) or "control", "theorem applies" if ok_thm else "outside D02 / hypotheses")] += 1
+    chk.coverage["quote_and_keyword_streams"] = {"quote interfaces": len(qirs), "keyword interfaces": len(kirs), "cases": (len(qirs) + len(kirs)) * 42,
+                                                 "cases inside D02 with the docstring-layer hypotheses true": n_extra_thm,
+                                                 "distribution": {" | ".join(k): v for k, v in sorted(extra.items())}}
     n_dis = sum(v for k, v in stats.items() if k[-1] == "DISAGREE")
     n_agree = sum(v for k, v in stats.items() if k[-1] == "agree" or k[-1].startswith("both raise") or k[-1].startswith("docstring layer raises"))
-    chk.oblige("correspondence: real emitters/parsers = Iface.emit / Top.reparse / Iface.parse on %d generated cases + %d hand-written sources + %d trigger cases + %d wrap-boundary cases + %d separator cases + %d witnesses "
-               "(emitted AST, re-parsed AST, parsed IR)" % (n_main, len(srcs), len(tcases), len(wcases), len(pcases), len(WITNESSES)), "correspondence", n_dis == 0,
+    chk.oblige("correspondence: real emitters/parsers = Iface.emit / Top.reparse / Iface.parse on %d generated cases + %d hand-written sources + %d trigger cases + %d wrap-boundary cases + %d separator cases + %d quote / keyword cases + %d witnesses "
+               "(emitted AST, re-parsed AST, parsed IR)" % (n_main, len(srcs), len(tcases), len(wcases), len(pcases), (len(qirs) + len(kirs)) * 42, len(WITNESSES)), "correspondence", n_dis == 0,
                "%d disagreements; %d stage agreements; %d cases fully claimed by the model" % (n_dis, n_agree, n_claimed))
     chk.coverage["correspondence_outcomes"] = {" | ".join(k): v for k, v in sorted(stats.items())}
     chk.coverage["input_distribution"] = {" | ".join(k): v for k, v in sorted(cov.items())}
@@ -845,7 +894,8 @@ def run(chk: core.Check) -> int:
                       "descriptions (whitespace / terminal full stop) against the interface under the statement's two normalisations only; non-trivial = inside D02 with the docstring-layer "
                       "hypotheses true on the real layer and every stage claimed by the model; plus a wrap-boundary stream (2-4 parameters with defaults, description lengths 52-99 so that "
                       "textwrap.fill breaks the line at every position of '. Defaults to <value>') through the same real pipeline and oracle; plus a separator stream (descriptions of parameters and return entries with commas, colons, "
-                      "semicolons, ' - ', parentheses, '->', '=', quotes, trailing comma; 3 fixed corner interfaces on every seed)")
+                      "semicolons, ' - ', parentheses, '->', '=', quotes, trailing comma; fixed corner interfaces on every seed); a quote stream (string defaults with quote characters in every position) and a keyword stream "
+                      "(descriptions mentioning Args: / Returns: / Raises: / Kwargs: / Parameters / underlined headings / :param / :return: as prose, with colon-less controls)")
 
 
 def prim_correspondence(chk, rng):
